@@ -101,7 +101,7 @@ pub fn profile(name: &str) -> Profile {
         "C11" => Profile { name: "C11", kinds: [3, 2, 3, 2, 0, 1, 0, 0, 0], w_dispatch: 12, w_misc: 5, run_bias: 5, ..base },
         "C12" => Profile { name: "C12", scripted_faults: true, kinds: [2, 1, 8, 1, 2, 0, 0, 0, 0], w_dispatch: 10, w_advance: 5, w_cause: 3, ..base },
         "C13" => Profile { name: "C13", w_idle: 10, err_returns: true, ..base },
-        "C15" => Profile { name: "C15", adapters: 3, faults: false, scripted_faults: true, natural_faults: true, err_returns: true, kinds: [3, 2, 3, 6, 0, 0, 0, 0, 0], ..base },
+        "C15" => Profile { name: "C15", adapters: 3, faults: false, scripted_faults: true, natural_faults: true, err_returns: true, kinds: [3, 2, 3, 6, 0, 0, 0, 0, 2], ..base },
         "C14" => Profile { name: "C14", kinds: [2, 1, 2, 2, 8, 0, 0, 0, 0], w_token: 9, w_misc: 4, faults: true, scripted_faults: true, err_returns: true, ..base },
         "C16" => Profile { name: "C16", kinds: [2, 2, 0, 10, 0, 2, 0, 0, 0], table_every: 1, w_token: 8, err_returns: true, adapters: 4, ..base },
         _ => base,
@@ -596,6 +596,21 @@ impl G {
                 let mode = if self.rng.chance(3, 4) { 9 } else { self.rng.below(3) as u8 };
                 let seq = vec![Op::GenericSet(id, a, mode), Op::Disable(id), Op::GenericSet(id, b, 9), Op::Enable(id), Op::GenericSet(id, a, 9), Op::PeerWrite(id, 1), Op::Dispatch(Timeout::Zero)];
                 return seq.into_iter().filter(|_| !self.rng.chance(1, 6)).collect();
+            }
+        }
+        if p.adapters > 0 && !self.adapters.is_empty() && self.rng.chance(1, 40) {
+            // a source the program keeps is handed an adapter which it drops inside one of its
+            // own (un)registration calls, and goes through exactly that call: removed and
+            // registered again, disabled and enabled, updated
+            let kept: Vec<Id> = self.srcs.iter().filter(|s| s.2).map(|s| s.0).collect();
+            if !kept.is_empty() {
+                let s = *self.rng.pick(&kept);
+                let a = *self.rng.pick(&self.adapters.clone());
+                return match self.rng.below(3) {
+                    0 => vec![Op::AdapterGiveTo(a, s, 2), Op::Remove(s), Op::ReinsertKept(s)],
+                    1 => vec![Op::AdapterGiveTo(a, s, 2), Op::Disable(s), Op::Enable(s)],
+                    _ => vec![Op::AdapterGiveTo(a, s, 1), Op::Update(s)],
+                };
             }
         }
         match self.rng.weighted(&w) {
